@@ -174,6 +174,8 @@ func checkC21(c *Check) {
 			reach[obj.FullName()] = true
 		}
 	}
+	nodePrintedThroughItsOwnPrinter(c, a, tl1Family, "Combinator", "String", "printer/node-printed-through-its-own-printer")
+	c.Floor("printer/node-printed-through-its-own-printer", 10)
 	printerSiblingsConsultSameFields(c, a.r, "printer/field-consulted-on-every-path", true, func(pb *printerBody) bool { return reach[pb.fi.Obj.FullName()] })
 	c.Floor("printer/field-consulted-on-every-path", 3)
 	printerConsultsWhatParserAlwaysFills(c, a.r, a.pkg, tl1Family, "printer/always-parsed-field-always-consulted")
@@ -226,6 +228,8 @@ func checkC25(c *Check) {
 	}
 	// only the printers the listing actually runs (the tag form, C23, drops parts by design)
 	printerSiblingsConsultSameFields(c, a.r, "canonical/field-consulted-on-every-path", true, func(pb *printerBody) bool { return reach[pb.fi.Obj.FullName()] })
+	printerSiblingsKeepGrouping(c, a.r, "canonical/grouping-tokens-kept", func(pb *printerBody) bool { return reach[pb.fi.Obj.FullName()] })
+	c.Floor("canonical/grouping-tokens-kept", 2)
 	c.Floor("canonical/field-consulted-on-every-path", 25)
 	// (1) one line per combinator, (2) effective tag
 	if ir := a.r.ir("internal/tlast.TL.StreamGenerate2TL"); ir != nil {
